@@ -463,7 +463,7 @@ func oracle(p *progSpec, o *obsT, res *okT, er *errT) []hk.Failure {
 				// the body is certainly read (and the failure certainly raised) when auto-read is on for
 				// this status or a target makes the binding step read it
 				bound := t.Status != 204 && ((st == 0 && p.TResult) || (st == 1 && (p.TError || p.TCommon)))
-				if (p.AutoRead == 0 && !p.Save && t.Status > 199) || bound {
+				if (p.AutoRead == 0 && !p.Save && t.Status > 199) || bound || (p.Save && p.readerErr(t.B) != 0) { // (a download copies the body, past the transformer)
 					add(be)
 				} else {
 					may = append(may, be)
@@ -471,12 +471,13 @@ func oracle(p *progSpec, o *obsT, res *okT, er *errT) []hk.Failure {
 				return
 			}
 			if t.Status != 204 {
-				if (st == 0 && p.TResult && u[0]) || (st == 1 && p.TError && u[1]) || (st == 1 && !p.TError && p.TCommon && u[2]) {
-					if p.UmCustom && t.B.UmErr != 0 {
-						add(t.B.UmErr)
-					} else {
-						add(eUnmarshal)
-					}
+				switch {
+				case st == 0 && p.TResult && u[0]:
+					add(p.umClass(t.B, "res"))
+				case st == 1 && p.TError && u[1]: // the request-level target's failure stands, whatever the client-level type would do
+					add(p.umClass(t.B, "req"))
+				case st == 1 && !p.TError && p.TCommon && u[2]:
+					add(p.umClass(t.B, "com"))
 				}
 			}
 		}
@@ -496,6 +497,13 @@ func oracle(p *progSpec, o *obsT, res *okT, er *errT) []hk.Failure {
 				may = append(may, at.T.B.WriteErr)
 				if !resent && p.bodyErr(at.T.B) == 0 {
 					must = append(must, at.T.B.WriteErr)
+				}
+			}
+			if p.Save && p.SaveKind == "closer" && at.T.Fail == 0 && at.T.B.CloseErr != 0 {
+				// closing the output is a stage too: its error fails a download that was copied cleanly
+				may = append(may, at.T.B.CloseErr)
+				if !resent && p.bodyErr(at.T.B) == 0 && at.T.B.WriteErr == 0 {
+					must = append(must, at.T.B.CloseErr)
 				}
 			}
 			// a client-level digest middleware runs before the built-in binding (e430ccb): when it
@@ -530,7 +538,7 @@ func oracle(p *progSpec, o *obsT, res *okT, er *errT) []hk.Failure {
 		}
 		if stale { // the response (and its Err) of the previous attempt is what the caller holds
 			pa := p.Attempts[la-1]
-			may = append(may, pa.T.Fail, p.bodyErr(pa.T.B), pa.T.B.UmErr, pa.T.B.WriteErr, pa.T2.Fail, pa.T2.B.WriteErr, eUnmarshal, pa.GetBody)
+			may = append(may, pa.T.Fail, p.bodyErr(pa.T.B), pa.T.B.UmErr, pa.T.B.WriteErr, pa.T.B.CloseErr, pa.T2.Fail, pa.T2.B.WriteErr, eUnmarshal, pa.GetBody)
 			for _, m := range append(append([]mwSpec{}, pa.Cli...), pa.Req...) {
 				may = append(may, m.Set, m.Ret)
 			}
